@@ -129,6 +129,18 @@ CLAIMED = {
              "release, double release and leaks.",
         ref="5/C09", technique="TLA+ model checking (TLC) + schedule replay through cooperative scheduler with atomic-access hooks + TLC trace validation",
         note="Sequential consistency at the granularity of atomic accesses; plain reads of the counter are not scheduling points; Xml::Variant's sharing is covered single-threaded by C16."),
+    "C10": dict(
+        text="TLC model-checks FuturePoolImpl.tla (PlusCal transcription of src/Future.cpp: lock-free ring with per-slot sequence "
+             "numbers and CAS retry, FastSignal, worker loop, ThreadPool::run with back-pressure, racy counters, spawn/retire under "
+             "the mutex, start/join) over all interleavings for 1-2 clients with queue capacity 1-2: every call executed exactly "
+             "once, join only after completion, ring never overflows, every join eventually returns under fairness. Its state graphs "
+             "give schedules that the REAL Future/pool follows under the cooperative scheduler (NSTD_VERIF hooks: every atomic access, "
+             "protocol read and pthread call is a scheduling point; pool size and queue capacity overridden to 1-4); random and PCT "
+             "schedules cover 1-3 clients x 1-3 futures with restart / abort / idle-retirement variants and heap futures destroyed "
+             "right after join. start/exec/done/join events are validated by TLC against FutureAbs; deadlock, non-termination, "
+             "any pthread call on a destroyed primitive and sanitizer reports are violations.",
+        ref="5/C10", technique="TLA+ model checking incl. liveness (TLC, PlusCal) + schedule replay through cooperative scheduler with hooks + TLC trace validation",
+        note="Sequential consistency at scheduling-point granularity; configurations beyond 2 clients x 1 future only by random/PCT schedules; queue capacity 1 combined with worker retirement is excluded as unreachable with the shipped constants (DESIGN 5/C10)."),
 }
 
 PENDING_REASON = "check not built yet in this revision of /verif (planned: see DESIGN.md section 5); not claimed until its machinery runs"
